@@ -45,6 +45,7 @@ def register(R):
     R.contract(
         f'{TM}._submit_transfer', props=['C18', 'C08', 'C10', 'C07'],
         params=dict(call_args=ObjT(CARGS), submission_task_cls=ExtT('submission_task_cls'), extra_main_kwargs=Const(None)),
+        returns=ExtT('transfer_future'), raise_when={'Exception': lambda c: None},
         inline_callees=[f'{TM}._get_future_with_components'],
         checks=st_checks, raises={'Exception': lambda c: {}}, loops={0: trivial_loop()},
     )
